@@ -14,7 +14,7 @@ def run_tlc(module, cfg, wd, env=None, workers=None, timeout=900, extra=(), heap
     if dfs_queue:
         jopts.append("-Dtlc2.tool.queue.IStateQueue=StateDeque")
     cmd = ["java"] + jopts + ["-cp", JAVA_CP, "tlc2.TLC", "-workers", str(workers or NCPU), "-metadir", meta,
-                              "-config", cfg] + list(extra)
+                              "-config", cfg, "-noGenerateSpecTE"] + list(extra)
     if simulate:
         cmd += ["-simulate", simulate]
     cmd.append(module)
